@@ -203,39 +203,281 @@ def _passes(mp):
     return out, helper
 
 
+# ---- the helper, recognised by DATA FLOW (not by variable names or statement layout) ----------------------------------
+# A tiny symbolic interpreter runs the loop body twice - once assuming the gate is "big" (its qubit count exceeds the
+# threshold), once assuming it is not - and checks what each run appends to the returned circuit:
+#     big:      exactly the gates of  <fresh circuit holding only this gate>.resolve_gates(basis=self.native_gates)
+#     not big:  exactly the gate itself
+# where the qubit count is len(controls-or-[]) + len(targets-or-[]) of the gate.  Anything the interpreter does not
+# understand is refused.
+class _Continue(Exception):
+    pass
+
+
+class _Sym:
+    def __init__(self, where, big):
+        self.where = where
+        self.big = big
+        self.env = {}
+        self.content = {}      # fresh circuit id -> list of items it holds (None = unknown)
+        self.nfresh = 0
+        self.ks = set()
+
+    def refuse(self, node, msg):
+        raise Refuse(f"{self.where} l.{getattr(node, 'lineno', '?')}: {msg}")
+
+    # -- expressions ---------------------------------------------------------------------------------------------------
+    def fresh(self, call):
+        pos = list(call.args)
+        kws = {k.arg: k.value for k in call.keywords}
+        if None in kws:
+            self.refuse(call, "**kwargs in QubitCircuit(...)")
+        if pos:
+            n = pos.pop(0)
+        elif "N" in kws:
+            n = kws.pop("N")
+        else:
+            self.refuse(call, "QubitCircuit without N")
+        if pos or self.ev(n) != ("qcattr", "N"):
+            self.refuse(call, "QubitCircuit is not built on qc.N")
+        for k, v in kws.items():
+            if k not in ("reverse_states", "num_cbits") or self.ev(v) != ("qcattr", k):
+                self.refuse(call, f"QubitCircuit keyword {k} is not qc.{k}")
+        self.nfresh += 1
+        self.content[self.nfresh] = []
+        return ("fresh", self.nfresh)
+
+    def ev(self, e):
+        if isinstance(e, ast.Name):
+            if e.id in self.env:
+                return self.env[e.id]
+            if e.id == "qc":
+                return ("qc",)
+            if e.id == "self":
+                return ("self",)
+            self.refuse(e, f"unknown name {e.id}")
+        if isinstance(e, ast.Constant):
+            if e.value is None:
+                return ("none",)
+            if isinstance(e.value, bool):
+                self.refuse(e, "boolean constant")
+            if isinstance(e.value, int):
+                return ("int", e.value)
+            if isinstance(e.value, str):
+                return ("str", e.value)
+            self.refuse(e, "constant")
+        if isinstance(e, (ast.List, ast.Tuple)):
+            return ("list", tuple(self.ev(x) for x in e.elts))
+        if isinstance(e, ast.Attribute):
+            b = self.ev(e.value)
+            if b == ("self",) and e.attr == "native_gates":
+                return ("native",)
+            if b == ("qc",):
+                return ("qcattr", e.attr)
+            if b == ("op",) and e.attr in ("controls", "targets"):
+                return ("raw", e.attr)
+            if b[0] in ("fresh", "resolved") and e.attr == "gates":
+                return ("gates", b)
+            self.refuse(e, f"attribute .{e.attr}")
+        if isinstance(e, ast.Call):
+            f = e.func
+            if isinstance(f, ast.Name) and f.id == "QubitCircuit":
+                return self.fresh(e)
+            if isinstance(f, ast.Name) and f.id == "getattr" and not e.keywords and len(e.args) == 3:
+                o, a, d = (self.ev(x) for x in e.args)
+                if o == ("op",) and a in (("str", "controls"), ("str", "targets")) and d == ("none",):
+                    return ("raw", a[1])
+                self.refuse(e, "getattr")
+            if isinstance(f, ast.Name) and f.id == "len" and not e.keywords and len(e.args) == 1:
+                v = self.ev(e.args[0])
+                if v[0] == "q":
+                    return ("len", v[1])
+                if v == ("qubits",):
+                    return ("count",)
+                self.refuse(e, "len of something that is not the gate's controls/targets (None replaced by [])")
+            if isinstance(f, ast.Name) and f.id == "list" and not e.keywords and len(e.args) == 1:
+                v = self.ev(e.args[0])
+                if v[0] in ("q", "gates", "list", "qubits"):
+                    return v
+                self.refuse(e, "list(...)")
+            if isinstance(f, ast.Attribute) and f.attr == "resolve_gates":
+                b = self.ev(f.value)
+                kws = {k.arg: k.value for k in e.keywords}
+                if b[0] != "fresh" or self.content.get(b[1]) != [("op",)]:
+                    self.refuse(e, "resolve_gates is not called on a fresh circuit holding exactly the current gate")
+                if e.args or set(kws) != {"basis"} or self.ev(kws["basis"]) != ("native",):
+                    self.refuse(e, "resolve_gates is not called with basis=self.native_gates")
+                return ("resolved",)
+            self.refuse(e, "call")
+        if isinstance(e, ast.BoolOp) and isinstance(e.op, ast.Or) and len(e.values) == 2:
+            a, b = self.ev(e.values[0]), self.ev(e.values[1])
+            if a[0] == "raw" and b == ("list", ()):
+                return ("q", a[1])
+            self.refuse(e, "`or`")
+        if isinstance(e, ast.IfExp):
+            t = e.test
+            if isinstance(t, ast.Compare) and len(t.ops) == 1 and self.ev(t.comparators[0]) == ("none",):
+                a = self.ev(t.left)
+                yes, no = self.ev(e.body), self.ev(e.orelse)
+                if a[0] == "raw" and isinstance(t.ops[0], ast.IsNot) and yes == a and no == ("list", ()):
+                    return ("q", a[1])
+                if a[0] == "raw" and isinstance(t.ops[0], ast.Is) and no == a and yes == ("list", ()):
+                    return ("q", a[1])
+            self.refuse(e, "conditional expression")
+        if isinstance(e, ast.BinOp) and isinstance(e.op, ast.Add):
+            a, b = self.ev(e.left), self.ev(e.right)
+            if a[0] == "len" and b[0] == "len" and {a[1], b[1]} == {"controls", "targets"}:
+                return ("count",)
+            if a[0] == "q" and b[0] == "q" and {a[1], b[1]} == {"controls", "targets"}:
+                return ("qubits",)
+            if a[0] == "gates" and b[0] in ("gates", "list"):
+                return ("cat", a, b)
+            self.refuse(e, "`+`")
+        if isinstance(e, ast.UnaryOp) and isinstance(e.op, ast.Not):
+            v = self.ev(e.operand)
+            if v[0] == "cond":
+                return ("cond", v[1], not v[2])
+            self.refuse(e, "`not`")
+        if isinstance(e, ast.Compare) and len(e.ops) == 1:
+            a, b, op = self.ev(e.left), self.ev(e.comparators[0]), e.ops[0]
+            # ("cond", K, pol): the test is true  iff  (count > K) == pol
+            if a == ("count",) and b[0] == "int":
+                k = b[1]
+                tab = {ast.Gt: (k, True), ast.GtE: (k - 1, True), ast.Lt: (k - 1, False), ast.LtE: (k, False)}
+            elif b == ("count",) and a[0] == "int":
+                k = a[1]
+                tab = {ast.Lt: (k, True), ast.LtE: (k - 1, True), ast.Gt: (k - 1, False), ast.GtE: (k, False)}
+            else:
+                self.refuse(e, "comparison that is not <qubit count> against an integer")
+            if type(op) not in tab:
+                self.refuse(e, "comparison operator")
+            return ("cond",) + tab[type(op)]
+        self.refuse(e, f"expression {type(e).__name__}")
+
+    # -- what a value adds to a gate list ------------------------------------------------------------------------------
+    def items_of(self, node, v):
+        if v == ("gates", ("resolved",)):
+            return [("R",)]
+        if v[0] == "gates" and v[1][0] == "fresh":
+            c = self.content.get(v[1][1])
+            if c is None:
+                self.refuse(node, "gates of a circuit whose content is not known")
+            return list(c)
+        if v[0] == "list":
+            for x in v[1]:
+                if x != ("op",):
+                    self.refuse(node, "list element that is not the current gate")
+            return [("op",)] * len(v[1])
+        self.refuse(node, "unknown gate list")
+
+    def gates_target(self, node, t):
+        """`X.gates` with X a fresh circuit -> its id"""
+        if isinstance(t, ast.Attribute) and t.attr == "gates":
+            b = self.ev(t.value)
+            if b[0] == "fresh":
+                return b[1]
+        self.refuse(node, "assignment / call target is not <fresh circuit>.gates")
+
+    # -- statements ----------------------------------------------------------------------------------------------------
+    def run(self, stmts):
+        for st in stmts:
+            if isinstance(st, ast.Pass):
+                continue
+            if isinstance(st, ast.Expr) and isinstance(st.value, ast.Constant) and isinstance(st.value.value, str):
+                continue
+            if isinstance(st, ast.Continue):
+                raise _Continue()
+            if isinstance(st, ast.Assign) and len(st.targets) == 1:
+                t = st.targets[0]
+                if isinstance(t, ast.Name):
+                    if t.id in ("qc", "self"):
+                        self.refuse(st, f"{t.id} is rebound")
+                    self.env[t.id] = self.ev(st.value)
+                    continue
+                i = self.gates_target(st, t)
+                v = self.ev(st.value)
+                if v[0] == "cat":
+                    if v[1] != ("gates", ("fresh", i)):
+                        self.refuse(st, "X.gates = Y.gates + ...")
+                    self.content[i] = self.items_of(st, v[1]) + self.items_of(st, v[2])
+                else:
+                    self.content[i] = self.items_of(st, v)
+                continue
+            if isinstance(st, ast.AugAssign) and isinstance(st.op, ast.Add):
+                i = self.gates_target(st, st.target)
+                if self.content[i] is None:
+                    self.refuse(st, "circuit of unknown content")
+                self.content[i] = self.content[i] + self.items_of(st, self.ev(st.value))
+                continue
+            if isinstance(st, ast.Expr) and isinstance(st.value, ast.Call) and isinstance(st.value.func, ast.Attribute) \
+                    and st.value.func.attr in ("append", "extend") and len(st.value.args) == 1 and not st.value.keywords:
+                i = self.gates_target(st, st.value.func.value)
+                if self.content[i] is None:
+                    self.refuse(st, "circuit of unknown content")
+                v = self.ev(st.value.args[0])
+                if st.value.func.attr == "append":
+                    if v != ("op",):
+                        self.refuse(st, "append of something that is not the current gate")
+                    self.content[i] = self.content[i] + [("op",)]
+                else:
+                    self.content[i] = self.content[i] + self.items_of(st, v)
+                continue
+            if isinstance(st, ast.If):
+                v = self.ev(st.test)
+                if v[0] != "cond":
+                    self.refuse(st, "test is not a comparison of the qubit count")
+                self.ks.add(v[1])
+                truth = self.big if v[2] else (not self.big)
+                self.run(st.body if truth else st.orelse)
+                continue
+            self.refuse(st, f"statement {type(st).__name__}")
+
+
 def _helper_threshold(mp, helper):
-    """the helper must: loop over qc.gates, test `<count> > K` once, decompose exactly with resolve_gates(basis=self.native_gates)"""
+    where = f"ModelProcessor.{helper}"
     m = _method(mp, helper)
-    if m is None or [x.arg for x in m.args.args] != ["self", "qc"]:
-        raise Refuse(f"ModelProcessor.{helper}: missing / signature")
-    fors = [n for n in ast.walk(m) if isinstance(n, (ast.For, ast.While, ast.comprehension))]
-    if len(fors) != 1 or not isinstance(fors[0], ast.For):
-        raise Refuse(f"ModelProcessor.{helper}: expected exactly one for loop")
-    it = fors[0].iter
-    if not (isinstance(it, ast.Attribute) and it.attr == "gates" and isinstance(it.value, ast.Name) and it.value.id == "qc"):
-        raise Refuse(f"ModelProcessor.{helper}: loop is not over qc.gates")
-    ifs = [n for n in ast.walk(m) if isinstance(n, (ast.If, ast.IfExp))]
-    if len(ifs) != 1 or not isinstance(ifs[0], ast.If) or ifs[0] not in fors[0].body:
-        raise Refuse(f"ModelProcessor.{helper}: expected exactly one if statement, inside the loop")
-    t = ifs[0].test
-    if not (isinstance(t, ast.Compare) and len(t.ops) == 1 and isinstance(t.ops[0], ast.Gt)
-            and isinstance(t.comparators[0], ast.Constant) and isinstance(t.comparators[0].value, int)
-            and not isinstance(t.comparators[0].value, bool)):
-        raise Refuse(f"ModelProcessor.{helper}: test is not `<count> > <int>`")
-    # the counted quantity: len(controls) + len(targets) of names bound from gate.controls / gate.targets
-    lhs = t.left
-    ok = (isinstance(lhs, ast.BinOp) and isinstance(lhs.op, ast.Add)
-          and all(isinstance(x, ast.Call) and isinstance(x.func, ast.Name) and x.func.id == "len" and len(x.args) == 1
-                  and isinstance(x.args[0], ast.Name) for x in (lhs.left, lhs.right)))
-    if not ok or sorted(x.args[0].id for x in (lhs.left, lhs.right)) != ["controls", "targets"]:
-        raise Refuse(f"ModelProcessor.{helper}: counted quantity is not len(controls) + len(targets)")
-    calls = [n for n in ast.walk(m) if isinstance(n, ast.Call) and isinstance(n.func, ast.Attribute) and n.func.attr == "resolve_gates"]
-    if len(calls) != 1 or not any(c is calls[0] for b in ifs[0].body for c in ast.walk(b)):
-        raise Refuse(f"ModelProcessor.{helper}: expected one resolve_gates call in the true branch")
-    c = calls[0]
-    if c.args or len(c.keywords) != 1 or c.keywords[0].arg != "basis" or not _is_self_attr(c.keywords[0].value, "native_gates"):
-        raise Refuse(f"ModelProcessor.{helper}: resolve_gates is not called with basis=self.native_gates")
-    return t.comparators[0].value
+    if m is None or [x.arg for x in m.args.args] != ["self", "qc"] or m.args.vararg or m.args.kwarg or m.args.kwonlyargs:
+        raise Refuse(f"{where}: missing / signature")
+    body = _strip_doc(m.body)
+    loops = [k for k, st in enumerate(body) if isinstance(st, ast.For)]
+    if len(loops) != 1 or loops[0] != len(body) - 2 or not isinstance(body[-1], ast.Return):
+        raise Refuse(f"{where}: expected <assignments>; one for loop; return")
+    loop, ret = body[-2], body[-1]
+    if loop.orelse or not isinstance(loop.target, ast.Name) or not isinstance(ret.value, ast.Name):
+        raise Refuse(f"{where}: loop target / return value is not a plain name")
+    ks = set()
+    for big in (True, False):
+        sy = _Sym(where, big)
+        sy.run(body[:-2])                                   # before the loop: fresh circuits, aliases
+        if sy.ev(loop.iter) != ("qcattr", "gates"):
+            raise Refuse(f"{where}: the loop is not over qc.gates")
+        out = sy.env.get(ret.value.id)
+        if out is None or out[0] != "fresh":
+            raise Refuse(f"{where}: the returned value is not a circuit built before the loop")
+        if sy.content[out[1]] != []:
+            raise Refuse(f"{where}: the returned circuit is not empty before the loop")
+        # one iteration: circuits built before the loop have unknown content, the returned one is tracked by its delta
+        for i in list(sy.content):
+            sy.content[i] = None
+        sy.content[out[1]] = []
+        sy.env[loop.target.id] = ("op",)
+        try:
+            sy.run(loop.body)
+        except _Continue:
+            pass
+        if sy.env.get(ret.value.id) != out:
+            raise Refuse(f"{where}: the returned name is rebound inside the loop")
+        want = [("R",)] if big else [("op",)]
+        if sy.content[out[1]] != want:
+            raise Refuse(f"{where}: a gate {'above' if big else 'not above'} the threshold adds {sy.content[out[1]]} to the result, "
+                         f"expected {want}  (R = gates of the single-gate circuit resolved in the native basis, op = the gate itself)")
+        ks |= sy.ks
+    if len(ks) != 1:
+        raise Refuse(f"{where}: thresholds {sorted(ks)}")
+    k = ks.pop()
+    if k < 0:
+        raise Refuse(f"{where}: negative threshold")
+    return k
 
 
 def generate():
